@@ -60,6 +60,17 @@ def case(task):
         bv = sol.bestTrials[0].functionValues[0].value
         if np.any(bp < lo_a) or np.any(bp > up_a):
             msgs.append(f"refine={refine}: returned point {bp.tolist()} outside the box [{lo}, {up}]")
+        # the user asks the solver's evolvent where the returned point lies on the curve (a read-only query given the
+        # very array of the Solution): the returned point must still be the same point afterwards
+        try:
+            run.solver.evolvent.GetPreimages(sol.bestTrials[0].point.floatVariables)
+            run.solver.evolvent.GetInverseImage(sol.bestTrials[0].point.floatVariables)
+        except BaseException as e:
+            msgs.append(f"refine={refine}: inverse-image query about the returned point raised {type(e).__name__}: {e}")
+        bp2 = np.array(sol.bestTrials[0].point.floatVariables, dtype=float)
+        if not np.array_equal(bp, bp2):
+            msgs.append(f"refine={refine}: the returned point changed from {bp.tolist()} to {bp2.tolist()} after an "
+                        f"inverse-image query about it (box [{lo}, {up}])")
         if not (bv == f(bp)):
             msgs.append(f"refine={refine}: reported value {bv!r} but the objective at the returned point is {f(bp)!r}")
         out[refine] = (bv, sol.numberOfGlobalTrials, len(log))
@@ -74,6 +85,11 @@ def case(task):
 def twobasin(N, lo, up, a, b):
     lo = np.array(lo, dtype=float)
     w = np.array(up, dtype=float) - lo
+    if a == "edge":
+        # a very steep, narrow minimum at the lower face next to a shallow interior basin at u = b
+        cb = np.full(N, b)
+        return lambda y: float(min(-3.0 * np.exp(-300.0 * np.max((np.asarray(y) - lo) / w)),
+                                   -1.0 + 4.0 * np.max(np.abs((np.asarray(y) - lo) / w - cb))))
     ca, cb = np.full(N, a), np.full(N, b)
     return lambda y: float(min(-1.0 + 30.0 * np.max(np.abs((np.asarray(y) - lo) / w - ca)),
                                -2.0 + 30.0 * np.max(np.abs((np.asarray(y) - lo) / w - cb))))
@@ -167,7 +183,7 @@ def run(ctx):
                     tasks.append(dict(N=N, box=bx, kind=kind, par=par, limit=lim))
     htasks = []
     for N in (1, 2):
-        for (a, b) in ((0.12, 0.83), (0.83, 0.12), (0.4, 0.9)):
+        for (a, b) in ((0.12, 0.83), (0.83, 0.12), (0.4, 0.9), ("edge", 0.6)):
             for k1 in range(2, 13 if not th else 20):
                 for k2 in range(1, 13 if not th else 20):
                     htasks.append(dict(N=N, box="B1" if N == 1 else "B2", a=a, b=b, k1=k1, k2=k2, nloc=30))
